@@ -9,14 +9,15 @@
 //!   lookup3   {len, fill, level}            hashlittle / hashlittle2 / Jenkins96::hash
 //!   salsa20   {len, fill, ivlen, blk:[hi,lo]} encrypt_salsa20, decrypt_salsa20, round trip
 //!   arc4      {len, fill, keylen}           Arc4Cipher::encrypt, decrypt, round trip
-//!   split     {kind, len, keylen, ivlen, blk, points:[..] | cuts:[..]}   streaming API, piecewise
+//!   split     {kind, len, keylen, ivlen, blk, [kseed], points:[..] | cuts:[..]}   streaming API, piecewise
 //!   md5       {len, fill}                   ContentKey::from_data, EncodingKey::from_data
 //!   memcmp    {len, points:[..]}            vectorized_memcmp / simd_memcmp under every feature subset
 //!   memeq     {len, points:[..]}            batch_mem_equal
 //!   memmem    {hlen, nlen, points:[..]}     vectorized_memmem / simd_search
 //!   memset    {len}, memcpy {len}           simd_memset / simd_memcpy (inside a guard band)
 //!   batch     {kind, lens:[..]}             batch_content_keys / batch_jenkins96_data / batch_jenkins96_paths
-//!   users     {n}                           LocalHeader::new().to_bytes(), UpdateEntry::new().to_bytes()
+//!   users     {n, idx}                      LocalHeader::new().to_bytes(), UpdateEntry::new().to_bytes(); idx > 0: an
+//!                                         index of `idx` entries saved by IndexManager, the guarded blocks read back
 //!
 //! Events: {"op":"new","prog":<program>,...} starts a run; then per call
 //!   {"op":"f","seq":n,"fn":..,args..,"ok":bool,"res":..}            stateless call
@@ -26,7 +27,7 @@
 //! SIMD helpers are called once per subset of the host's CPU features; "res" is then the list of distinct
 //! outcomes, each with the subsets (bit masks: 1 sse2, 2 sse4.1, 4 avx2, 8 avx512) that produced it.
 use cascette_cache::simd::{CpuFeatures, SimdHashOperations, SimdMemoryOps, detect_cpu_features};
-use cascette_client_storage::index::ArchiveLocation;
+use cascette_client_storage::index::{ArchiveLocation, IndexManager};
 use cascette_client_storage::index::update::{UpdateEntry, UpdateStatus};
 use cascette_client_storage::storage::LocalHeader;
 use cascette_crypto::arc4::Arc4Cipher;
@@ -252,8 +253,11 @@ fn fam_split(p: &Value, r: &mut Run) {
     let kind = p["kind"].as_str().unwrap_or("salsa20").to_string();
     let n = u(p, "len");
     let data = fill(&mut rng, p["fill"].as_str().unwrap_or("rand"), n);
-    let key = if kind == "arc4" { rng.bytes(u(p, "keylen").clamp(1, 256)) } else { rng.bytes(16) };
-    let iv = rng.bytes(u(p, "ivlen"));
+    // key and IV come from "kseed" when given (programs of one group share the cipher parameters, so
+    // the monitor computes their keystream once)
+    let mut krng = Rng::new(p.get("kseed").and_then(Value::as_u64).unwrap_or_else(|| rng.next()));
+    let key = if kind == "arc4" { krng.bytes(u(p, "keylen").clamp(1, 256)) } else { krng.bytes(16) };
+    let iv = krng.bytes(u(p, "ivlen"));
     let blk = p.get("blk").map(w32_of).unwrap_or(0);
     // optional preset block counter [[hi,lo] low word, [hi,lo] high word] - needs the hook
     let ctr: Option<u64> = p.get("ctr").map(|c| u64::from(w32_of(&c[0])) | (u64::from(w32_of(&c[1])) << 32));
@@ -562,6 +566,48 @@ fn fam_users(p: &Value, r: &mut Run) {
             bytes_json(&UpdateEntry::new(ekey, loc, esize, st).to_bytes())
         });
     }
+    let nent = u(p, "idx");
+    if nent > 0 {
+        for n in [0, 1, nent] {
+            let mut r2 = Rng::new(rng.next());
+            r.f("idx_blocks", json!({"entries": n}), move || idx_blocks(n, &mut r2));
+        }
+    }
+}
+
+/// Guarded blocks of the .idx files an `IndexManager` writes: for each file the header block and the
+/// entry block with the size and hash fields that precede them (projection of the file bytes only).
+fn idx_blocks(nent: usize, rng: &mut Rng) -> Value {
+    let dir = tempfile::tempdir().expect("tempdir");
+    let mut ix = IndexManager::new(dir.path());
+    for _ in 0..nent {
+        let mut k = [0u8; 16];
+        k.copy_from_slice(&rng.bytes(16));
+        // bucket 0: fold the XOR of the first nine bytes to zero
+        let x = k[..9].iter().fold(0u8, |a, b| a ^ b);
+        let fold = (x & 0x0f) ^ (x >> 4);
+        k[8] ^= fold;
+        ix.add_entry(&EncodingKey::from_bytes(k), rng.below(1000) as u16, (rng.next() as u32) & 0x3FFF_FFFF, rng.next() as u32 >> 8)
+            .expect("add_entry");
+    }
+    ix.flush_all_updates().expect("flush_all_updates");
+    ix.save_all().expect("save_all");
+    let mut files = vec![];
+    let mut names: Vec<_> = std::fs::read_dir(dir.path()).expect("read_dir").flatten().map(|e| e.path()).collect();
+    names.sort();
+    for path in names {
+        if path.extension().and_then(|e| e.to_str()) != Some("idx") {
+            continue;
+        }
+        let b = std::fs::read(&path).expect("read idx");
+        let le = |o: usize| u32::from_le_bytes([b[o], b[o + 1], b[o + 2], b[o + 3]]);
+        let hsize = le(0) as usize;
+        let eoff = 8 + hsize + 8;
+        let esize = le(eoff) as usize;
+        files.push(json!({"hsize": hsize, "hhash": w32(le(4)), "header": bytes_json(&b[8..8 + hsize]),
+                          "esize": esize, "ehash": w32(le(eoff + 4)), "entries": bytes_json(&b[eoff + 8..eoff + 8 + esize])}));
+    }
+    Value::Array(files)
 }
 
 fn run_program(p: &Value, out: &Emit) {
